@@ -65,11 +65,13 @@ def build_variant(c):
         m = syn_models[c['sel'] % len(syn_models)]
         k = c['sel'] % len(rows[m])
         g = c['gamma']
+        gq = {0.3: 0.6, 0.5: 0.25, 0.75: 0.4}.get(g, 0.5)      # active and reactive power are split differently
         other = (1 - g) if v == 'split_ok' else (c['bad_sum'] - g)
+        otherq = (1 - gq) if v == 'split_ok' else (c['bad_sum'] - gq)
         r = rows[m][k]
-        r['gammap'], r['gammaq'] = g, g
+        r['gammap'], r['gammaq'] = g, gq
         new = dict(idx='VSPLIT', bus=r['bus'], gen=r['gen'], Sn=r.get('Sn', 100.0), Vn=r.get('Vn', 110.0), M=6.0, D=1.0,
-                   xd1=0.3, gammap=other, gammaq=other, u=1)
+                   xd1=0.3, gammap=other, gammaq=otherq, u=1)
         rows.setdefault('GENCLS', []).append(new)
         info['consistent'] = v == 'split_ok'
         info['note'] = 'split %s[%d] gamma=%g + GENCLS gamma=%g' % (m, k, g, other)
@@ -234,6 +236,13 @@ def init_case(ctx, c):
                         s = tot.setdefault(mdl.gen.v[k], [0.0, 0.0])
                         s[0] += float(mdl.Pe.v[k])
                         s[1] += float(mdl.Qe.v[k])
+                        # each machine takes its own declared share of the static generator's reactive power
+                        if mdl.gen.v[k] in sg and hasattr(mdl, 'gammaq'):
+                            share = sg[mdl.gen.v[k]][1] * float(mdl.gammaq.v[k])
+                            if abs(float(mdl.Qe.v[k]) - share) > 100 * tol + 1e-3 * abs(share):
+                                ctx.fail('machine_share_differs_from_split_factor',
+                                         dict(case=brief, model=mname, device=repr(mdl.idx.v[k]), Qe=float(mdl.Qe.v[k]), expected=share,
+                                              gammaq=float(mdl.gammaq.v[k])), sig=dict(which='Q'))
         for gidx, (pe, qe) in tot.items():
             if gidx in sg and gidx in sums and abs(sums[gidx][0] - 1) < 1e-9:
                 p, q = sg[gidx]
